@@ -1,7 +1,7 @@
 (* Properties/C16.v -- Macro 05/06 compaction and GS1 start are exact and lossless (the parts that are theorems). *)
 From Coq Require Import Arith NArith List Bool.
 From DM Require Import Generated.Symbols Generated.ModeTables Model.Outcome Model.SymbolList Model.Planner Model.Enc Model.Dec
-  Proofs.EncLocal Proofs.EncTop Proofs.DecMacro.
+  Model.Api Spec.Stream16022 Proofs.EncLocal Proofs.EncTop Proofs.DecMacro Proofs.DecScript Proofs.EncAscii Proofs.MacroAscii.
 Import ListNotations.
 Local Open Scope N_scope.
 
@@ -61,7 +61,20 @@ Theorem C16_decoder_fnc1 : forall rest raw, decode_parts (232 :: rest) raw =
 Proof. exact decode_fnc1_first. Qed.
 Print Assumptions C16_decoder_fnc1.
 
-(* NOT a theorem here: that the body decodes to itself (the round trip through the six mode encoders and the
+(* (v) the lossless part as a theorem for the ASCII-only configuration: every message in the Macro 05 / 06 envelope
+   (any body of bytes), every symbol list, every admissible sort -- the stream is the macro codeword followed by a legal
+   ASCII script for the body and padding, and the decoder returns the whole message (Proofs/MacroAscii.v + C04) *)
+Theorem C16_macro_roundtrip_ascii_only : forall sorter data symbols body m head cw s,
+  (forall k l l', sorter symbols k l = Ok l' -> incl l' l) -> bytes_ok body = true ->
+  (m = 236 /\ head = MACRO05_HEAD) \/ (m = 237 /\ head = MACRO06_HEAD) ->
+  data = head ++ body ++ MACRO_TRAIL ->
+  encode_data_internal (optimize_fn sorter) data symbols None 1 true false = Ok (cw, s) ->
+  (exists npad, script_ok [SAscii (greedy body)] npad = true /\ cw = stream_with m [SAscii (greedy body)] npad) /\
+  decode_data cw = Ok data.
+Proof. exact macro_ascii_roundtrip. Qed.
+Print Assumptions C16_macro_roundtrip_ascii_only.
+
+(* NOT a theorem here: that the body decodes to itself under the other plans (the round trip through the six mode encoders and the
    decoder) -- decided per case by the correspondence + reference decoder, see DESIGN.md. *)
 
 (* the hypotheses are satisfiable: the bare header is returned verbatim, an enveloped message is stripped *)
